@@ -5,6 +5,18 @@ props = [json.loads(l) for l in open('properties.jsonl')]
 ids = [p['id'] for p in props]
 # id -> (level, technique, text, note, design_ref)
 checks = {
+ 'C03': ('exploration', 'runtime monitor: executable reference model (keyed deep merge) vs target store read directly; error class via errors.Is',
+         'Every edit call on a generated (schema, target, source, strategy, entry point, direction, source implementation) tuple and on histories of up to 6 such calls is compared with an executable model written from the statement; the target is a harness store read without any library read path. Held on the executions observed.',
+         'trusts the model dp.Apply (60 lines) and the reference store; domain: schemas without choice/when, non-empty lists, key-preserving edits', 'DESIGN.md 3/C03'),
+ 'C04': ('exploration', 'runtime monitor: write-logging capture store + encoding/json token-stream decoder vs model tree; round trip through the library reader',
+         'Exports of generated trees (all leaf types, nested/compound-key lists, choices, augmenting module) are captured by a store that logs every write (exactly-once, schema order) and JSON output is decoded token by token with the standard library and compared with the model; the writer output is fed back through ReadJSON and exported again.',
+         'trusts encoding/json and the model tree; decimal64 compared at float64 precision', 'DESIGN.md 3/C04'),
+ 'C10': ('exploration', 'runtime monitor: denotation oracle (math/big) over the product target format x source kind x boundary catalog',
+         'Every val.Conv result for ~30k (format, source) pairs per run is compared with the arbitrary-precision denotation of the source: error, or exactly the same number/text/truth value/sequence; in-range natural sources must convert.',
+         'trusts math/big and strconv; decimal64 exactness is float64-nearest (documented representation)', 'DESIGN.md 3/C10'),
+ 'C15': ('exploration', 'runtime monitor: encoding/json token-stream oracle on writer output + failing io.Writer fault injection at byte positions',
+         'Writer output for 8 configurations x start selections (root, container, list, entry, leaf) over trees with a JSON-hostile string catalog and nesting up to 70 is parsed by the standard library and compared with the model (names, RFC 7951 qualification, typing, string decoding, pretty==compact tokens); a failing stream is injected at boundary byte positions and must surface as an error.',
+         'trusts encoding/json; int64/uint64/decimal64 accepted as number or string of the same digits', 'DESIGN.md 3/C15'),
  'C17': ('exploration', 'runtime monitor: law checking of Compare/Equal against math/big denotations + keyed-lookup differential vs model list',
          'All 65536 pairs of both 8-bit formats and all pairs/triples over boundary sets of every other comparable format are checked against an arbitrary-precision denotation on every run; lookups on slice/map stores are compared with a model list. Held-on-what-was-observed, exhaustive only for the 8-bit tables.',
          'trusts math/big, strings.Compare and the harness model list; wider formats are sampled at boundaries + seeded random values', 'DESIGN.md 3/C17'),
